@@ -891,6 +891,21 @@ def colour_probes(pay):
     return out
 
 
+def bulk_store_dup_probes():
+    """a bulk store is a sequence of stores: the last tile of the list that names an address decides"""
+    out = []
+    for cfg in all_configs():
+        z = 30 if cfg.get('layout') == 'quadkey' else 3
+        a, b, c = (5, 5, z), (0, 0, z), (5, 5, z + 1)
+        ops = [('store_many', [(a, 6), (a, 7)], ()), ('load', a + ((),)),
+               ('store_many', [(b, 8), (a, 9), (b, 10), (c, 11), (a, 12), (c, 13)], ()),
+               ('load_many', [a, b, c], ()),
+               ('store_many', [(c, 14), (b, 15), (c, 16)], ()), ('load', c + ((),)), ('load', b + ((),)),
+               ('store_many', [(a, 17), (a, 17), (a, 6)], ()), ('reopen',), ('load_many', [c, a, b, a], ())]
+        out.append((cfg, ops, 'probe:bulk-store-repeated-address'))
+    return out
+
+
 def dup_probes():
     out = []
     for k in SQL_KINDS:
@@ -1024,6 +1039,11 @@ def object_cases(ctx, pay, terms, descr):
                               else rng.randrange(pay.n)))
             else:
                 calls.append(('remove', d))
+            if rng.random() < 0.3:
+                # a store whose write fails (ENOSPC), then the retry through the same Tile object
+                pid_f = rng.choice(pay.mono_ids) if (link != 'none' and rng.random() < 0.4) else rng.randrange(pay.n)
+                calls.append(('store_fail', rng.choice(dimsets), pid_f))
+                calls.append(('store', rng.choice(dimsets), pid_f if rng.random() < 0.6 else rng.randrange(pay.n)))
         post = [('load', (x, y, z, d)) for d in dimsets]
         cdir = ctx.tmpdir('obj')
         cache = make_backend(cfg, cdir)
@@ -1040,8 +1060,37 @@ def object_cases(ctx, pay, terms, descr):
                         ret = bool(cache.is_cached(t, dimensions=dims_arg(c[1])))
                     elif c[0] == 'store':
                         t.source = ImageSource(BytesIO(pay.png[c[2]]))
+                        was_stored = bool(t.stored)
                         cache.store_tile(t, dimensions=dims_arg(c[1]))
                         ret = None
+                        if not was_stored:
+                            # the store of an object that is not marked stored returned normally: its address
+                            # (fixed by the first call that needed the location) now holds the payload
+                            chk = Tile((x, y, z))
+                            chk.location = t.location
+                            cache.load_tile(chk)
+                            if read_source(pay, chk) != list(pay.pixels[c[2]]):
+                                ctx.fail('file,tile-object,store-returned-without-writing',
+                                         'store_tile of a Tile object with stored == False returned normally, but a load of '
+                                         'its location does not return the payload (calls so far: %r)' % (calls[:len(obs) + 1],),
+                                         {'backend': cfg, 'coord': [x, y, z], 'pre': pre, 'calls': calls[:len(obs) + 1]})
+                    elif c[0] == 'store_fail':
+                        import errno
+                        import mapproxy.cache.file as fc
+                        t.source = ImageSource(BytesIO(pay.png[c[2]]))
+                        orig = fc.write_atomic
+
+                        def failing(filename, data):
+                            raise OSError(errno.ENOSPC, 'injected: no space left on device')
+                        fc.write_atomic = failing
+                        try:
+                            try:
+                                cache.store_tile(t, dimensions=dims_arg(c[1]))
+                                ret = None
+                            except OSError:
+                                ret = False
+                        finally:
+                            fc.write_atomic = orig
                     else:
                         cache.remove_tile(t, dimensions=dims_arg(c[1]))
                         ret = None
@@ -1092,6 +1141,8 @@ def object_cases(ctx, pay, terms, descr):
                 return '(TCached (mkd %s))' % dims_lit(c[1])
             if c[0] == 'store':
                 return '(TStore (mkd %s) %s)' % (dims_lit(c[1]), pl_lit(pay, c[2]))
+            if c[0] == 'store_fail':
+                return '(TStoreFail (mkd %s) %s)' % (dims_lit(c[1]), pl_lit(pay, c[2]))
             return '(TRemove (mkd %s))' % dims_lit(c[1])
         link_l = {'none': 'LNone', 'symlink': 'LSym', 'hardlink': 'LHard'}[link]
         terms.append('(%s, %s, [%s], (%s, %s, %s), [%s], [%s], [%s], [%s])' % (
@@ -1275,6 +1326,7 @@ def run(ctx):
     todo += compact_probes()
     todo += layout_probes()
     todo += colour_probes(pay)
+    todo += bulk_store_dup_probes()
 
     cfgs = all_configs()
     # 2. bounded exhaustive short histories over three colliding addresses (each from the empty state of the
